@@ -79,6 +79,11 @@ NestedParams ==
   {Named([type |-> "array", cf |-> "pipes",
           items |-> [type |-> "array", cf |-> "csv", maxItems |-> 2, items |-> [type |-> "integer", maximum |-> 10]]], loc, req) :
       loc \in {"query", "header"}, req \in BOOLEAN}
+\* three levels: the innermost array declares no collectionFormat (csv by default, whatever encloses it)
+Nested3Params ==
+  {Named([type |-> "array", cf |-> "pipes",
+          items |-> [type |-> "array", cf |-> "ssv", items |-> [type |-> "array", items |-> [type |-> t]]]], loc, FALSE) :
+      t \in {"integer", "string"}, loc \in {"query", "header"}}
 \* nested arrays with a default: an absent parameter gives the handler the default
 NestedDefaultParams ==
   {Put(Named([type |-> "array", cf |-> "pipes", items |-> [type |-> "array", cf |-> "csv", items |-> [type |-> "integer"]]], loc, FALSE),
@@ -91,7 +96,7 @@ ArrayDefaultParams ==
   {Put(Named(ArrayOf("i_int", cf), loc, FALSE), "default", Arr(<<Num(4), Num(6)>>)) : cf \in {"none", "pipes"}, loc \in {"query", "header"}}
 
 Params == {p \in ScalarParams : ScalarOK(p)} \cup DefaultParams \cup AllowEmptyParams
-          \cup {p \in ArrayParams : ArrayOK(p)} \cup ArrayCountParams \cup NestedParams \cup NestedPlainParams \cup NestedDefaultParams \cup ArrayDefaultParams
+          \cup {p \in ArrayParams : ArrayOK(p)} \cup ArrayCountParams \cup NestedParams \cup NestedPlainParams \cup NestedDefaultParams \cup Nested3Params \cup ArrayDefaultParams
 
 \* file parameters (multipart upload): the value is the content of the file; minLength / maxLength bound its
 \* size.  They are part of the client/server universe (C04) and of the build matrix (C01); the raw-request
@@ -111,6 +116,10 @@ ScalarLexemes(p) ==
     [] p.type = "boolean" -> {"true", "false", "1", "0", "x1"}
     [] OTHER -> {"a", "ab", "abc", "abcd", "b", "7", "2020-01-02"}
 
+Nested3Frags(p) ==
+  LET L == IF p.items.items.items.type = "integer" THEN {"1", "2", "5"} ELSE {"a", "ab"} IN
+  {Absent1} \cup {One(<<x>>) : x \in L} \cup {One(<<x, ",", y>>) : x \in L, y \in L}
+  \cup {One(<<x, ",", y, " ", x>>) : x \in L, y \in L} \cup {One(<<x, ",", y, " ", y, "|", x, ",", x>>) : x \in L, y \in L}
 ScalarFrags(p) ==
   (IF p["in"] = "path" THEN {} ELSE {Absent1}) \cup {One(<<x>>) : x \in ScalarLexemes(p)}
   \cup (IF p["in"] = "path" THEN {} ELSE {One(<<>>)})
@@ -148,6 +157,7 @@ NestedFrags ==
 
 Frags(p) ==
   IF p.type # "array" THEN ScalarFrags(p)
+  ELSE IF p.items.type = "array" /\ p.items.items.type = "array" THEN Nested3Frags(p)
   ELSE IF p.items.type = "array" THEN (IF Has(p.items, "maxItems") THEN NestedFrags ELSE NestedPlainFrags(p))
   ELSE ArrayFrags(p)
 
